@@ -138,9 +138,17 @@ func (s *NotifyFollowReader) startWatcher() (*fsnotify.Watcher, error) {
 }
 
 // reopenIfReplaced handles a delete signal in re-open mode. Signals coalesce and are received in
-// no particular order: the create signal of the replacement may already have been consumed while
-// the old file was still open, so the replacement is opened right away if it exists.
+// no particular order: the signal may concern a file that was replaced before the current one was
+// opened (then it is ignored), and the create signal of the replacement may already have been
+// consumed while the old file was still open (so the replacement is opened right away).
 func (s *NotifyFollowReader) reopenIfReplaced() {
+	if s.f != nil {
+		if atPath, err := os.Stat(s.filename); err == nil {
+			if open, err := s.f.Stat(); err == nil && os.SameFile(atPath, open) {
+				return
+			}
+		}
+	}
 	s.closeFile()
 	if f, err := os.Open(s.filename); err == nil {
 		s.f = f
